@@ -31,7 +31,9 @@ CHECKS = {
         "almost never produces are as likely as the common one. Histories of builds with the thread count toggled, reconstructor calls and object "
         "re-creation run on 1-3 objects; after every build the matrix must be bit-identical to a fresh single-process build and to every earlier "
         "build of that object. A fraction of runs executes the tasks in real forked worker processes driven in lock-step; a few builds per run "
-        "also use the real multiprocessing.Pool to validate the stub. Sampling, not proof: a clean batch is evidence.",
+        "also use the real multiprocessing.Pool to validate the stub. Faults beyond scheduling: bounded waits that time out or just make it, a task "
+        "that raises MemoryError in its worker (the build may raise, never return a wrong matrix, and the next build must be right), numpy.empty "
+        "handing aotools dirty memory, asterisms of up to 13 sensors, uneven sensors, zero-strength layers. Sampling, not proof: a clean batch is evidence.",
    note="Trusted: SimPool's model of the CPython 3.12 fork-start Pool contract (ordered map, completion-ordered imap_unordered/callbacks, default "
         "chunking, pickle boundary); workers compute one at a time, so shared-memory races between simultaneously running workers are not explored; "
         "worker death is not injected (a real Pool.map hangs there, the property promises nothing).",
@@ -89,7 +91,7 @@ CHECKS["C18"] = dict(
    ref="DESIGN.md section 7")
 CHECKS["C20"] = dict(
    technique="deterministic simulation: programs of public calls by several simulated callers on a shared array heap; line-level argument monitor; injected write protection, aliasing, re-allocation and poisoned numpy.empty; repeat-call / fresh-copy / batch-vs-item history oracles",
-   text="Seeded exploration of programs: 1-3 simulated callers issue 5-40 public aotools calls (registry of 87 of the 97 public callables; the rest are "
+   text="Seeded exploration of programs: 1-3 simulated callers issue 5-40 public aotools calls (registry of 89 of the 97 public callables; the rest are "
         "excluded with a reason or covered through their parent) whose array arguments come from a shared heap (float64/float32/int64/complex128; C, "
         "Fortran, strided, frames that are views of a stack, write-protected), interleaved call by call, with repeats of earlier calls, heap "
         "re-allocation (id() reuse), ambient RNG reseeds and, per call, numpy.empty poisoned with a different value per allocation when called from "
@@ -97,7 +99,7 @@ CHECKS["C20"] = dict(
         "bit-identical to its snapshot; the same call later in the history returns a bytewise equal result; the call on fresh copies of the arguments "
         "returns an equal result; stack calls (3-D and 4-D) equal per-item calls; arrays returned earlier never change later; numpy error state, print "
         "options, warnings filters, cwd, environment and both global RNGs are identical before and after every call; callers overwrite returned arrays "
-        "and refill heap arrays in place; complex, big-endian and all-zero inputs; a sample of programs is re-run in reverse order in pristine "
+        "and refill heap arrays in place; complex, big-endian and all-zero inputs; NaN pixels, two image sizes; some calls leave out every argument that only repeats a default (the function's own default objects are used), and every second program has a sweeping caller that calls three functions (chosen by run index: every registered function is swept) on every array they accept; a sample of programs is re-run in reverse order in pristine "
         "processes. A run whose digest depends on which unrelated runs preceded it in the process is reported as hidden state. Sampling, not proof.",
    note="An exception is a result (same type again = equal). A write-protected argument that makes a call raise is judged on a writable copy. "
         "Results on fresh copies and batch-vs-item are compared with rtol 1e-9 (1e-4 when single precision is involved). numba kernels are opaque to "
